@@ -222,6 +222,37 @@ theorem emitted_code_gates (f : Nat) (a : Att) (v : Val)
       simp [h] at this
   · exact emitted_code_sound f a v hok ht hc
 
+/-- The same for the code emitted for a request parameter or header (`AttributeValidationCode` with
+    `Pointer = false`: a primitive, or an array / map of primitives; `req` = required or defaulted, so
+    the variable is a value and the checks are unguarded, otherwise every check carries its own nil
+    guard): on a present well-typed value it is silent iff the specification reports no violation. -/
+theorem emitted_param_code_gates (f : Nat) (req : Bool) (a : Att) (v : Val)
+    (hok : okCtx f false a = true) (ht : typed f a v = true) (hex : noBothEx f a = true)
+    (hc : collOK f a v = true) :
+    runL (compile f false req a) v = [] ↔ violations f a v = [] := by
+  constructor
+  · intro h
+    cases hv : violations f a v with
+    | nil => rfl
+    | cons y ys =>
+      have := compile_complete f false req a v y hok ht hex (by simp [hv])
+      simp [h] at this
+  · exact compile_sound f false req a v hok ht hc
+
+/-- an absent optional parameter is never rejected by its own checks: they are all nil-guarded -/
+theorem absent_optional_param_passes (f : Nat) (k : Kind) (r : Rules) (hk : k ≠ .bytes) :
+    runL (compile (f + 1) false false (.prim k r)) .absent = [] := by
+  simp only [compile, Bool.false_or, Bool.not_false]
+  cases k with
+  | boolean => simp [primChecks]
+  | number i lo hi =>
+    unfold primChecks
+    cases r.hasEnum <;> simp [runL_append, range_absent]
+  | string =>
+    unfold primChecks
+    cases r.hasEnum <;> cases r.format <;> cases r.pattern <;> simp [runL_append, rune_absent]
+  | bytes => exact absurd rfl hk
+
 /-- the two hypotheses are needed — the emitted code itself is wrong there (both are known findings,
     reproduced on generated servers by `vlib/c04.py`): -/
 def bothEx : Att := .obj [("n", true, .prim (.number true none none) { exMin := some ⟨0, 1⟩, exMax := some ⟨10, 1⟩ })]
